@@ -257,12 +257,162 @@ def _vmap_grid(nn, jnp, jax, fails, tier):
   return cases
 
 
+def _function_style(nn, jnp, jax, fails, tier):
+  """nn.scan / nn.vmap applied to a FUNCTION of a parent module whose setup children hold the carried / stacked collection and
+  are looked at before and after the loop (same program with an explicit python loop must agree)."""
+  cases = 0
+  D, N = 3, 4
+
+  class Accum(nn.Module):
+    def setup(self):
+      self.total = self.variable('state', 'total', lambda: jnp.zeros((D,)))
+      self.steps = self.variable('state', 'steps', lambda: jnp.zeros((), jnp.int32))
+
+    def __call__(self, x):
+      self.total.value = self.total.value + x
+      self.steps.value = self.steps.value + 1
+      return self.total.value
+
+  def body(mdl, c, x):
+    r = mdl.zacc(x * c)
+    r2 = mdl.acc(x)
+    return jnp.tanh(c + 0.1 * r + 0.01 * r2), r * 2.0
+
+  class Model(nn.Module):
+    lifted: bool
+    reverse: bool = False
+    unroll: int = 1
+
+    def setup(self):
+      self.zacc = Accum()       # declared out of alphabetical order on purpose
+      self.acc = Accum()
+
+    def __call__(self, c, xs):
+      before = self.zacc.total.value
+      if self.is_initializing():
+        return c, xs, before, before, self.acc.steps.value
+      if self.lifted:
+        c, ys = nn.scan(body, variable_carry='state', variable_broadcast='params', split_rngs={'params': False}, reverse=self.reverse, unroll=self.unroll)(self, c, xs)
+      else:
+        idx = range(N - 1, -1, -1) if self.reverse else range(N)
+        out = {}
+        for i in idx:
+          c, out[i] = body(self, c, xs[i])
+        ys = jnp.stack([out[i] for i in range(N)])
+      return c, ys, before, self.zacc.total.value, self.acc.steps.value
+  xs = jnp.arange(N * D, dtype=jnp.float32).reshape(N, D) / 7.0
+  c0 = jnp.ones((D,)) * 0.3
+  v = Model(False).init(jax.random.key(0), c0, xs)
+  v = jax.tree_util.tree_map(lambda a: a + 1 if a.dtype == jnp.int32 else a + 0.25, v)
+  for reverse, unroll in ((False, 1), (True, 1), (False, 2)):
+    cases += 1
+    inp = dict(transform='scan', program='function-style nn.scan over a parent whose setup children (zacc, acc) carry the state; read before and after the loop', reverse=reverse, unroll=unroll)
+    try:
+      want = Model(False, reverse, unroll).apply(v, c0, xs, mutable=['state'])
+      got = Model(True, reverse, unroll).apply(v, c0, xs, mutable=['state'])
+      if not _close(_np(want), _np(got)):
+        fails.append(dict(inputs=inp, observed='outputs / post-loop reads / updated carried collection differ from the explicit loop', violated='scan-equals-loop'))
+    except Exception as e:  # noqa
+      fails.append(dict(inputs=inp, observed=f'raised {e!r}'[:300], violated='scan-equals-loop'))
+
+  def vbody(mdl, x):
+    return mdl.zacc(x) + mdl.acc(2 * x)
+
+  class VModel(nn.Module):
+    lifted: bool
+
+    def setup(self):
+      self.zacc = Accum()
+      self.acc = Accum()
+
+    def __call__(self, xs):
+      if self.is_initializing():
+        return xs, self.zacc.total.value, self.acc.steps.value
+      if self.lifted:
+        ys = nn.vmap(vbody, variable_axes={'state': 0}, split_rngs={})(self, xs)
+      else:
+        raise AssertionError
+      return ys, self.zacc.total.value, self.acc.steps.value
+  cases += 1
+  try:
+    one = Model(False).init(jax.random.key(0), c0, xs)['state']
+    B = N
+    stacked = jax.tree_util.tree_map(lambda a: jnp.stack([a + b for b in range(B)]).astype(a.dtype), one)
+    (ys, tot, steps), upd = VModel(True).apply({'state': stacked}, xs, mutable=['state'])
+    ok = True
+    for b in range(B):
+      sb = jax.tree_util.tree_map(lambda a: a[b], stacked)
+      zt = np.asarray(sb['zacc']['total']) + np.asarray(xs[b])
+      at = np.asarray(sb['acc']['total']) + 2 * np.asarray(xs[b])
+      ok = ok and np.allclose(np.asarray(ys[b]), zt + at, atol=1e-5) and np.allclose(np.asarray(tot[b]), zt, atol=1e-5) \
+          and int(steps[b]) == int(sb['acc']['steps']) + 1 and np.allclose(np.asarray(upd['state']['zacc']['total'][b]), zt, atol=1e-5) \
+          and np.allclose(np.asarray(upd['state']['acc']['total'][b]), at, atol=1e-5) and int(upd['state']['zacc']['steps'][b]) == int(sb['zacc']['steps']) + 1
+    if not ok:
+      fails.append(dict(inputs=dict(transform='vmap', program='function-style nn.vmap over a parent whose setup children (zacc, acc) hold the stacked state; read after the call'),
+                        observed='outputs / post-call reads / updated stacked collection differ from running the body once per index', violated='vmap-equals-per-index'))
+  except Exception as e:  # noqa
+    fails.append(dict(inputs=dict(transform='vmap', program='function-style nn.vmap over a parent with setup children'), observed=f'raised {e!r}'[:300], violated='vmap-equals-per-index'))
+
+  # class transforms over a module with sub-module ATTRIBUTES declared out of alphabetical order
+  class Enc(nn.Module):
+    @nn.compact
+    def __call__(self, x):
+      return nn.Dense(D)(x)
+
+  class Dec(nn.Module):
+    @nn.compact
+    def __call__(self, x):
+      return jnp.tanh(nn.Dense(D, use_bias=False)(x)) * 2.0
+
+  class Seq2(nn.Module):
+    encoder: nn.Module
+    decoder: nn.Module
+
+    def __call__(self, x):
+      return self.decoder(self.encoder(x))
+
+  class Seq2Cell(nn.Module):
+    encoder: nn.Module
+    decoder: nn.Module
+
+    def __call__(self, c, x):
+      y = self.decoder(self.encoder(x + c))
+      return c * 0.5 + y, y
+  plain = Seq2(Enc(), Dec())
+  pv = plain.init(jax.random.key(1), xs[0])
+  cases += 1
+  try:
+    V = nn.vmap(Seq2, variable_axes={'params': None}, split_rngs={'params': False}, in_axes=0)
+    vv = V(Enc(), Dec()).init(jax.random.key(1), xs)
+    got = V(Enc(), Dec()).apply(pv, xs)
+    want = jnp.stack([plain.apply(pv, xs[i]) for i in range(N)])
+    if jax.tree_util.tree_map(np.shape, _np(vv)) != jax.tree_util.tree_map(np.shape, _np(pv)) or not _close(_np(want), _np(got)):
+      fails.append(dict(inputs=dict(transform='vmap', program='module with attributes encoder, decoder (declared in that order), broadcast params'), observed='init tree / outputs differ from calling the plain module once per index', violated='vmap-equals-per-index'))
+  except Exception as e:  # noqa
+    fails.append(dict(inputs=dict(transform='vmap', program='module with attributes encoder, decoder (declared in that order), broadcast params'), observed=f'raised {e!r}'[:300], violated='vmap-equals-per-index'))
+  cases += 1
+  try:
+    S = nn.scan(Seq2Cell, variable_broadcast='params', split_rngs={'params': False})
+    cell = Seq2Cell(Enc(), Dec())
+    sv = S(Enc(), Dec()).init(jax.random.key(1), c0, xs)
+    cgot, ysgot = S(Enc(), Dec()).apply(pv, c0, xs)
+    c, ys = c0, []
+    for i in range(N):
+      c, y = cell.apply(pv, c, xs[i])
+      ys.append(y)
+    if jax.tree_util.tree_map(np.shape, _np(sv)) != jax.tree_util.tree_map(np.shape, _np(pv)) or not _close(_np((c, jnp.stack(ys))), _np((cgot, ysgot))):
+      fails.append(dict(inputs=dict(transform='scan', program='cell with attributes encoder, decoder (declared in that order), broadcast params'), observed='init tree / outputs differ from the explicit loop over the plain cell', violated='scan-equals-loop'))
+  except Exception as e:  # noqa
+    fails.append(dict(inputs=dict(transform='scan', program='cell with attributes encoder, decoder (declared in that order), broadcast params'), observed=f'raised {e!r}'[:300], violated='scan-equals-loop'))
+  return cases
+
+
 def run(tier, seed):
   import jax
   import jax.numpy as jnp
   import flax.linen as nn
   cases, fails = 0, []
-  for part in (_scan_grid, _vmap_grid):
+  for part in (_scan_grid, _vmap_grid, _function_style):
     try:
       cases += part(nn, jnp, jax, fails, tier)
     except Exception:
@@ -270,7 +420,7 @@ def run(tier, seed):
       return dict(name=NAME, cases=cases, distinct=cases, failures=[], error=f'{part.__name__}: ' + traceback.format_exc()[-1500:])
   return dict(name=NAME, cases=cases, distinct=cases,
               bound='scan: params {broadcast, axis 0, axis 1} x reverse x unroll {1,2} x in/out axes {0,1} x length {1,3} x split_rngs (quick: unroll 2 only with axes 0/0) + 2 broadcast-collection programs; '
-                    'vmap: params {None, 0, 1} x in/out axes {0,1} x stats In{0,1,2} x intermediates Out{0,1,2} x split_rngs, batch 3 (quick: In{0,2} x Out{1,2})',
+                    'vmap: params {None, 0, 1} x in/out axes {0,1} x stats In{0,1,2} x intermediates Out{0,1,2} x split_rngs, batch 3 (quick: In{0,2} x Out{1,2}); 6 function-style / attribute-order programs',
               failures=fails[:3], error=None)
 
 
